@@ -52,6 +52,15 @@ Theorem C05_waitnoecho_bounds : forall nap d, 0 < nap -> forall fuel now rem off
 Proof. exact waitnoecho_bounds. Qed.
 Print Assumptions C05_waitnoecho_bounds.
 
+(** a read that returns AFTER the deadline (the environment law broken: slow log file, descheduling) is not lost and not waited on
+    again: a hit is reported as a hit; a miss is followed by TIMEOUT at the head of the next iteration, with no further read -
+    whatever the transport holds next *)
+Theorem C05_late_read : forall over d now rem dur r, expired rem = false ->
+  loop over (Some d) now rem (RHit dur :: r) = (Matched, now + dur + over) /\
+  (d < now + dur + over -> loop over (Some d) now rem (RMiss dur :: r) = (TimedOut, now + dur + over)).
+Proof. exact (fun over d now rem dur r He => conj (late_hit_is_a_hit over d now rem dur r He) (late_miss_times_out over d now rem dur r He)). Qed.
+Print Assumptions C05_late_read.
+
 Example C05_lawful_example : lawful 1 1 (Some 10) 0 [RMiss 3; RMiss 2; RTimeout 4] /\
   expect_loop 1 0 (Within 10) [RMiss 3; RMiss 2; RTimeout 4] = (TimedOut, 11).
 Proof. cbn. repeat split; try discriminate; auto with zarith. Qed.
